@@ -1,18 +1,23 @@
 """C09 — a crash at any instant leaves a repository that opens and is consistent.
 
-Model: lean/DulwichModel/Model/Crash.lean (abstract file system, repository reading, executable
-`checkProgram`); theorems: Props/C09.lean (`crashSafe_of_check`, pattern lemmas, F8 counterexamples).
+Model: lean/DulwichModel/Model/Crash.lean (abstract file system, dulwich's reading of it, `Recoverable`, the
+executable `checkProgram`); soundness lemmas: Lemmas/Crash.lean; theorems: Props/C09.lean
+(`crashSafe_of_check`, pattern lemmas with negative twins, F8 counterexamples and fixed orders).
 
 Tie:
-  * translate(): runs every fixed scenario's REAL operation once on a scratch repository under a
-    system-call recorder (harness/sched.py), canonicalises the mutating calls (object ids -> o<n>,
-    temp/lock names -> tmp<n>, pack names -> p<n>) and emits them as Lean terms (Gen/Traces.lean) with
-    one `checkProgram … = true/false := by decide` obligation per scenario (Gen/TracesChecked.lean):
-    reordering two renames in dulwich changes the generated term and breaks an obligation.
-  * run(): materialises EVERY crash prefix of every scenario on disk (snapshot at each boundary between
-    two calls, plus the state right after each open()) and checks the property's own words on each
-    snapshot with the real code (direct oracle); compares the model's reading of each snapshot and the
-    model's `run (take k prog)` with what the real `Repo` reports (correspondence).
+  * translate(): runs every fixed scenario's REAL operation once on a scratch repository under a system-call
+    recorder (harness/sched.py), canonicalises the mutating calls (object ids -> o<n>, temp/lock names ->
+    tmp<n>, pack names -> p<n>, refs -> r<n>) and emits them as Lean terms (Gen/Traces.lean) with one
+    `checkProgram … = true := by decide +kernel` obligation per scenario (Gen/TracesChecked.lean, imported by
+    Props/C09.lean) — `= false` plus a `decide`d counterexample prefix where the REAL crash states of the
+    scenario violate the property (the F8 windows).  Reordering two renames in dulwich changes the generated
+    term and breaks an obligation.
+  * run(): for every scenario (the fixed ones + seeded random variants) EVERY prefix of the recorded program
+    is materialised on disk (replayed onto a copy of the start state; the replay is cross-checked against
+    the live state at every recorded boundary and right after every open()) and the property's own words
+    are checked on it with the real code (direct oracle); the model's `run (take j prog)`, its reading of
+    that state (visible objects, ref map) and its `Recoverable` verdict are compared with the real listing,
+    the real `Repo` and the oracle, prefix by prefix (driver op `c09.trace`).
 """
 from __future__ import annotations
 
@@ -513,6 +518,45 @@ def _sc_add_objects(shape, fsync=False):
     return build, op
 
 
+def _sc_add_objects_over_orphan(kind):
+    """The start state holds what an EARLIER crash of the same operation left: the pack renamed in, its index
+    not yet written (an orphaned .pack) — with the same name (same object set) but different bytes (object
+    order / compression differ from process to process).  Re-running the operation must stay safe."""
+    def objs():
+        from dulwich.objects import Tree
+        b = _new_blob(b"packed fresh\n")
+        t = Tree()
+        t.add(b"n.txt", 0o100644, b.id)
+        return b, t
+
+    def build(p):
+        from dulwich.pack import iter_sha1
+        st = _base(p, "mixed")
+        r = st["r"]
+        if kind == "add_objects":
+            b, t = objs()
+            ids = sorted(bytes.fromhex(o.id.decode()) for o in (b, t))
+            data = make_thin_pack(None, b"", [t, b], b"")
+        else:   # repack: every object of the store, stored in sorted order with default compression
+            allo = sorted(r.object_store, reverse=True)
+            ids = sorted(bytes.fromhex(o.decode()) for o in allo)
+            data = make_thin_pack(None, b"", [r[o] for o in allo], b"")
+        name = "pack-" + iter_sha1(iter(ids)).decode() + ".pack"
+        with open(os.path.join(r.object_store.pack_dir, name), "wb") as f:
+            f.write(data)
+        st["orphan"] = name
+        return st
+
+    def op(st):
+        if kind == "add_objects":
+            b, t = objs()
+            st["r"].object_store.add_objects([(b, None), (t, None)])
+        else:
+            st["r"].object_store.repack()
+        return {"refs": {}, "plain": set()}
+    return build, op
+
+
 def _sc_stage(shape):
     def build(p):
         st = _base(p, shape)
@@ -769,6 +813,8 @@ def fixed_scenarios() -> list[Scn]:
     add("add_objects_pack_loose", "add_objects", _sc_add_objects("loose"))
     add("add_objects_pack_packed", "add_objects", _sc_add_objects("packed"))
     add("add_objects_pack_fsync", "add_objects", _sc_add_objects("mixed", fsync=True))
+    add("add_objects_over_orphan_pack", "add_objects", _sc_add_objects_over_orphan("add_objects"))
+    add("repack_over_orphan_pack", "repack", _sc_add_objects_over_orphan("repack"))
     add("stage_loose", "index", _sc_stage("loose"))
     add("index_write", "index", _sc_index_write())
     add("commit_loose", "commit", _sc_commit("loose"))
@@ -1945,6 +1991,8 @@ def run(ctx: core.Ctx):
         if len(ctx.samples) < 3 and scn.name in ("commit_loose", "delete_ref_both", "repack_mixed"):
             ctx.sample({"scenario": scn.name, "program": [cn.tok_call(c) for c in cn.calls],
                         "oracle_failures": [list(f[:3]) for f in ev.failures][:3]})
+    import gc
+    gc.collect()
     ctx.extra_cov["scenarios"] = verdicts
     ctx.extra_cov["programs_recorded"] = len(verdicts)
     ctx.extra_cov["generated_obligations"] = ("Gen/TracesChecked.lean: one `checkProgram … = true/false := by decide +kernel` per "
@@ -1965,6 +2013,9 @@ def _run_variants(ctx: core.Ctx, n: int, thorough_oracle=False):
             ctx.disagree("recorder", {"variant": v}, "complete program", f"TranslateError: {e}")
             continue
         kinds[v["op"]["k"]] = kinds.get(v["op"]["k"], 0) + 1
+        if i % 20 == 19:
+            import gc
+            gc.collect()
         shutil.rmtree(os.path.join(str(ctx.scratch), "c09", scn.name), ignore_errors=True)
     ctx.extra_cov["variant_ops"] = kinds
 
